@@ -217,6 +217,12 @@ func (h *FSEventHandler) UpsertHash(fileName string, hash [sha256.Size]byte) (up
 	return true
 }
 
+func (h *FSEventHandler) deleteHash(fileName string) {
+	h.hashesMutex.Lock()
+	defer h.hashesMutex.Unlock()
+	delete(h.hashes, fileName)
+}
+
 // generate Go code for a single template.
 // If a basePath is provided, the filename included in error messages is relative to it.
 func (h *FSEventHandler) generate(ctx context.Context, fileName string) (result GenerateResult, diagnostics []parser.Diagnostic, err error) {
@@ -255,6 +261,8 @@ func (h *FSEventHandler) generate(ctx context.Context, fileName string) (result 
 	if h.UpsertHash(targetFileName, goCodeHash) {
 		result.Updated = true
 		if err = h.writer(targetFileName, formattedGoCode); err != nil {
+			// The file does not hold this content, so the next attempt must not be skipped.
+			h.deleteHash(targetFileName)
 			return result, nil, fmt.Errorf("failed to write target file %q: %w", targetFileName, err)
 		}
 	}
@@ -268,6 +276,7 @@ func (h *FSEventHandler) generate(ctx context.Context, fileName string) (result 
 		if h.UpsertHash(txtFileName, txtHash) {
 			result.TextUpdated = true
 			if err = os.WriteFile(txtFileName, []byte(joined), 0o644); err != nil {
+				h.deleteHash(txtFileName)
 				return result, nil, fmt.Errorf("failed to write string literal file %q: %w", txtFileName, err)
 			}
 		}
